@@ -104,3 +104,28 @@ Definition law_pg (sp : spec) (xs : list task_extra) (jobprio : Z) (queue_ok : b
   forallb (fun t => match tm_get (t_name t) (g_taskmin g) with
                     | Some v => Z.eqb v (min_task_member t) | None => false end) (s_tasks sp) &&
   Z.eqb (g_prio g) jobprio && queue_ok && law_minres sp xs (g_res g).
+
+(* ---------- PodGroup after a reconcile, on observations ---------- *)
+Definition pg_fields_eqb (a b : option podgroup) : bool :=
+  match a, b with
+  | None, None => true
+  | Some x, Some y => if pg_eq_dec (mkPG (g_minmember x) (sort_kv (g_taskmin x)) (g_prio x) (g_res x))
+                                   (mkPG (g_minmember y) (sort_kv (g_taskmin y)) (g_prio y) (g_res y)) then true else false
+  | _, _ => false
+  end.
+
+(* a sync that reports success (job, pods and PodGroup views fresh) left a PodGroup that mirrors the spec *)
+Definition law_pg_step (sp : spec) (xs : list task_extra) (r : req) (fresh jobfresh pgfresh metaok : bool)
+                       (b a : obs) (g : option podgroup) : bool :=
+  if fresh && jobfresh && pgfresh && negb (o_err a) && is_sync_path sp b r
+  then match g with Some g => law_pg sp xs 0 metaok g | None => false end
+  else true.
+
+(* a refused PodGroup write: the reconcile reports the error, touches no pod, leaves the PodGroup as it was *)
+Definition law_pg_fault (failed : bool) (b a : obs) (gb ga : option podgroup) : bool :=
+  implb failed (o_err a && pods_eqb (o_pods b) (o_pods a) && pg_fields_eqb gb ga).
+
+(* createOrUpdatePodGroup called directly: fresh lister and no error => mirrors; error => API server unchanged *)
+Definition law_pg_call (sp : spec) (xs : list task_extra) (jp : Z) (lister_fresh err : bool) (gb ga : option podgroup) : bool :=
+  (if lister_fresh && negb err then match ga with Some g => law_pg sp xs jp true g | None => false end else true) &&
+  implb err (pg_fields_eqb gb ga).
